@@ -57,6 +57,8 @@ TUS = {
     "t_prefetch": {"sources": ["t_prefetch.cpp"], "parts": [None]},
     "t_prefetch32": {"sources": ["t_prefetch.cpp"], "parts": [None], "flags": ["-DAVEL_L1_CACHE_LINE_SIZE=32", "-DAVEL_L2_CACHE_LINE_SIZE=32", "-DAVEL_L3_CACHE_LINE_SIZE=32"]},
     "t_prefetch128": {"sources": ["t_prefetch.cpp"], "parts": [None], "flags": ["-DAVEL_L1_CACHE_LINE_SIZE=128", "-DAVEL_L2_CACHE_LINE_SIZE=128", "-DAVEL_L3_CACHE_LINE_SIZE=128"]},
+    "t_types": {"sources": ["t_types.cpp"], "parts": [None], "flags": ["-fsyntax-only"], "norun": True},
+    "t_api": {"sources": ["t_api.cpp"], "parts": INT_PARTS + FLT_PARTS, "flags": ["-O0", "-Wl,--warn-unresolved-symbols"], "link_check": True},
     "t_select": {"sources": ["t_select.cpp"], "parts": INT_PARTS + FLT_PARTS},
 }
 
@@ -308,5 +310,16 @@ PROPS = {
         "explanation": "the complete finite menu of environment placements is enumerated; oracle: no signal, and a checksum over the whole arena (all six pages) is unchanged at the end "
                        "of every (function, level, type) pass",
         "assumptions": ["AVEL_PREFETCH alone does not compile (__PREFETCH__ is no compiler macro): decided and reported by C19, not built here"],
+    },
+    "C19": {
+        "custom": "c19",
+        "rule": "states = implication-closed sets of the 23 user-nameable x86 feature macros (+ AVEL_PREFETCH). quick: every single macro, every chain prefix, every AVX-512 sub-extension "
+                "alone / +VL / +BW, the arm cover, the full set; thorough: all 4217 closed sets. For each: -fsyntax-only of <avel/Avel.hpp> + <avel/Aligned_allocator.hpp> + a static_assert "
+                "table (exactly the documented Vector/Vector_mask specialisations are complete, sizeof == N*sizeof(T), trivially copyable, trivial masks, vecNx*/vecMx*/mask*/arr* aliases "
+                "name the widest provided width) naming only the maximal macros; the same with AVEL_AUTO_DETECT and only -m flags; compilers x standards {GCC, Clang} x {11,14,17,20}; and the "
+                "generic API program (every catalogued operation the width-1 vector offers, odr-used for every wider vector) compiled at -O0 and linked. non-trivial: every configuration.",
+        "explanation": "the oracle is the compiler and linker verdict: a failing static_assert, a compile error or an undefined reference is a violation keyed by configuration and first error line "
+                       "/ symbol; operations offered by the width-1 vector but not declared for a wider one are recorded by the program itself",
+        "assumptions": ["expected widths follow the statement: 128-bit with SSE2, 256-bit with AVX2, 512-bit 32/64-bit lanes with AVX-512F, 8/16-bit lanes with AVX-512BW"],
     },
 }
